@@ -290,6 +290,10 @@ fn configs(thorough: bool) -> Vec<Cfg> {
         (Scheme::Raptor, 2, 4, 1, 8, 0),
         (Scheme::Rs28Us, 4, 2, 1, 7, 0),
         (Scheme::NoCode, 4, 2, 0, 0, 3),
+        // content-encoded objects of three and more blocks of unequal size (the inflater's input ring wraps)
+        (Scheme::NoCode, 4, 5, 0, 40, 3),
+        (Scheme::NoCode, 4, 3, 0, 70, 1),
+        (Scheme::Rs28, 4, 5, 1, 45, 2),
     ];
     for (scheme, e, b, parity, len, cenc) in base {
         for inband_fti in [true, false] {
